@@ -33,7 +33,7 @@ THEOREMS = [
     'C14.basis_a_shortest', 'C14.basis_c_closest', 'C14.basis_b_shortest',
     # headline statement; division-free normal clause; the relational model used on float ties is sound
     'C14.free_surface_basis_correct', 'C14.normal_cofactor', 'C14.accepted_of_run', 'C14.accepted_properties',
-    'C14.inRange_iff', 'C14.validBasis_sound', 'C14.validBasis_properties',
+    'C14.inRange_iff', 'C14.validBasis_sound', 'C14.validBasis_properties', 'C14.zone_conventional', 'C14.p2c_c2p',
     # Miller-Bravais input / output
     'C14.plane4to3_spec', 'C14.vector3to4_spec',
     # FreeSurface: termination shifts
@@ -77,7 +77,7 @@ PARTIAL = {
     'minimum_r': 'only the final algebra of the push is proved (the pushed separation has length minimum_r); the '
                  'selection of the closest pair by System.dvect is not modelled',
 }
-RULE = ('free_surface_basis: every plane |h|,|k|,|l| <= N (N=4 quick, 8 thorough; zeros and negatives included) against '
+RULE = ('free_surface_basis: every plane |h|,|k|,|l| <= N (N=4 quick, 7 thorough; zeros and negatives included) against '
         'cells of all seven crystal families in two regimes — small dyadic cells on which every dot/cross product of the '
         'routine is exact in double precision (uvws compared exactly unless the model flags a tie) and family-constructor '
         'cells with generic parameters (tolerance 1e-9 on the normal; uvws exactly unless flagged) — x the three '
@@ -459,7 +459,7 @@ def _fsb_jobs(ctx):
     """(job, exact_regime, family) for the sweep."""
     import numpy as np
     rng = ctx.rng
-    N = ctx.n(4, 8)
+    N = ctx.n(4, 7)
     cap = ctx.n(4, 5)
     ex = exact_cells(rng)
     fl = [(nm, b.vects.tolist()) for nm, b in float_cells(rng)]
@@ -1384,7 +1384,7 @@ def search(ctx, broken):
         # (A) free_surface_basis: random planes x cells of every family x cuts x settings, both regimes
         N = ctx.n(5, 9)
         cap = ctx.n(4, 5)
-        count = ctx.n(260, 4000) * (3 if broken else 1)
+        count = ctx.n(260, 3000) * (3 if broken else 1)
         ex = exact_cells(rng)
         fl = [(nm, b.vects.tolist()) for nm, b in float_cells(rng)]
         centred = []
